@@ -35,6 +35,7 @@ ASSUMPTIONS = [
     "single-instance 'mixed' runs: a label file over two videos of sizes (64,96) and (32,48) size-matched to (64,96), frames alternating, so batch-mates have different eff_scale",
     "top-down scenes: the animal count grows from frame 0 to frame 1; with batch 3 and the video reader a frame without any animal is also placed first (thorough: also between the two) in the batch and must yield no record while the other frames keep theirs",
     "top-down crops: square, and (crop, crop+16) / (crop+16, crop) non-square crops on a sub-grid (label reader, batch 3, centroid scale 1 in quick; all label-reader cases in thorough)",
+    "the make_labels pass forwards every batch twice through the inference-model object (inputs must stay untouched, second answer = first)",
     "grid values: see bounds; other values are outside the bound",
 ]
 
@@ -147,7 +148,7 @@ def run_single(case, tmp):
                     return f"frame {f} node {k}: reported {pk[k].tolist()} vs true {truth[f][k].tolist()} (error {err:.2f} px > tolerance {tol:.2f})", None
     # label assembly (make_labels=True) must agree with the raw dicts
     pred2 = I.single_predictor(3, scale, case["max_stride"], stride, 1.5, (mh, mw), case["refinement"], case["batch"], sk)
-    labels = I.run_predictor(pred2, case["provider"], path, make_labels=True)
+    labels = I.run_predictor(pred2, case["provider"], path, make_labels=True, twice=True)
     lab = {int(lf.frame_idx): lf.instances[0].numpy() for lf in labels}
     for f in range(3):
         if f not in lab or not np.allclose(lab[f], got[f][0], atol=1e-4, equal_nan=True):
@@ -310,7 +311,7 @@ def run_topdown(case, tmp):
                     worst = max(worst, err / tol)
                     if err > tol:
                         return f"frame {f} node {kk}: reported {pk[kk].tolist()} vs true {t[kk].tolist()} (error {err:.2f} px > tolerance {tol:.2f})", None
-    labels = I.run_predictor(mk(), case["provider"], path, make_labels=True)
+    labels = I.run_predictor(mk(), case["provider"], path, make_labels=True, twice=True)
     for lf in labels:
         f = int(lf.frame_idx)
         mine = sorted([np.round(p, 3).tolist() for p, _ in got[f]], key=repr)
